@@ -1,0 +1,30 @@
+// SPDX-FileCopyrightText: 2026 The Pion community <https://pion.ly>
+// SPDX-License-Identifier: MIT
+
+//go:build verif
+
+// Package verifhook marks scheduling points for the verification harness.
+// With the verif build tag a harness can install a function that is called at
+// every mark (and may block there, which turns the mark into a scheduler gate).
+package verifhook
+
+import "sync/atomic"
+
+var hook atomic.Pointer[func(point string, key any)]
+
+// Set installs (or, with nil, removes) the function called at every mark.
+func Set(f func(point string, key any)) {
+	if f == nil {
+		hook.Store(nil)
+
+		return
+	}
+	hook.Store(&f)
+}
+
+// At marks a scheduling point.
+func At(point string, key any) {
+	if f := hook.Load(); f != nil {
+		(*f)(point, key)
+	}
+}
